@@ -6,7 +6,7 @@
 From Coq Require Import List NArith Bool Relations.
 From GV.Base Require Import Alist U128 Op.
 From GV.Rib Require Import Model Lemmas RefCount Closed.
-From GV.Server Require Import Model Obs Facts Inst Serviceable.
+From GV.Server Require Import Model Obs Facts Inst Serviceable Compose MidBatch.
 From GV.Conc Require Import GetProto.
 Import ListNotations.
 Open Scope N_scope.
@@ -41,6 +41,19 @@ Theorem C10_serviceable (s : srv ribt) c ack id opid idx x :
   /\ cur s4 = Some id.
 Proof. intros. apply fresh_session_serviced; assumption. Qed.
 Print Assumptions C10_serviceable.
+
+(* (a) a request cut off by a transport failure while it is being answered: however many of its operations (any
+   prefix: j of them) the server applies before it notices, the state is that of an ordinary history - the
+   reference-count invariant and well-formedness hold, the session's record is gone, the election state and
+   every other session are as they were.  (The harness checks that the implementation's state is the model's
+   for one of these j.) *)
+Theorem C10_cut_request_state nf vrfs h c ops j :
+  let s0 := snd (strace v_fixed sv_fixed (srv_init nf vrfs) h) in
+  let s' := snd (strace v_fixed sv_fixed s0 (cut_alt c ops j)) in
+  INV (srib s') /\ WF (srib s') /\ Model.sget ribt c s' = None
+  /\ cur s' = cur s0 /\ master s' = master s0 /\ others_same ribt c s0 s'.
+Proof. exact (cut_request_state nf vrfs h c ops j). Qed.
+Print Assumptions C10_cut_request_state.
 
 Theorem C10_own_flush_authorised id n : u128_is_zero id = false ->
   check_flush (Some id) (mk_flushreq (FId id) NAll) = F_OK /\ check_flush (Some id) (mk_flushreq (FId id) (NName n)) = F_OK.
